@@ -543,3 +543,10 @@ func OpaqueGlob(pattern string) []string { m, _ := filepath.Glob(pattern); retur
 //@   checks[C18,C16] large-offset-aborts: implies(called(ParseUint) && resultOf(ParseUint, 1) != nil && len(reGroup(regex.RuleIdFileNameRegex, resultOf(Name, 0), 2)) > 0, r != nil)
 //@   checks[C18] same-grammar: implies(called(processRegexForCompare), reMatch(regex.RuleIdFileNameRegex, resultOf(Name, 0)))
 //@   ensures[C15] reads-only: fsWrites() == old(fsWrites())
+
+// ---- C20: the running version handed to the updater must be comparable -------------------------
+// (a development build hands in "dev", which Release.LessOrEqual cannot parse)
+//@ contract createSelfUpdateCommand#0
+//@   tags C20
+//@   results r
+//@   modifies fsWrites
